@@ -269,6 +269,9 @@ func cmdCheck(args []string) int {
 		}
 	}
 	ev.write(time.Since(t0).Seconds(), violations)
+	if violations > 0 {
+		rc = 1 // a violation reproduced against the real code decides the run, whatever else stayed undecided
+	}
 	switch rc {
 	case 0:
 		fmt.Printf("OK property=%s tier=%s: all obligations discharged within the stated bounds (%.1fs)\n", id, *tier, time.Since(t0).Seconds())
